@@ -121,6 +121,8 @@ inductive Fault where
   | crash         -- the process dies before the call takes effect
   | crashPartial  -- the process dies inside a `put`: a torn object is left under the target key
                   -- (any other call: as `crash`)
+  | readCorrupt   -- a `get` returns a mangled body (truncated / bytes flipped / empty) that every
+                  -- parser rejects, ONCE, while the object at rest is intact (any other call: as `ok`)
   deriving DecidableEq, Repr, Inhabited
 
 /-- the environment: which fault hits the n-th store call (counted from 0 over the whole run) -/
@@ -148,7 +150,7 @@ def tick (w : World) : World := { w with calls := w.calls + 1 }
 def put (F : Oracle) (w : World) (n : Nat) (o : Obj) : World × Res Unit :=
   if w.dead then (w, .err false) else
   match F w.calls with
-  | .ok => ({ w.tick with store := NMap.insert n o w.store }, .ok ())
+  | .ok | .readCorrupt => ({ w.tick with store := NMap.insert n o w.store }, .ok ())
   | .fail => (w.tick, .err false)
   | .failPartial => ({ w.tick with store := NMap.insert n .torn w.store }, .err false)
   | .crash => ({ w.tick with dead := true }, .err false)
@@ -162,6 +164,10 @@ def get (F : Oracle) (w : World) (n : Nat) : World × Res Obj :=
     match NMap.get w.store n with
     | some o => (w.tick, .ok o)
     | none => (w.tick, .err true)
+  | .readCorrupt =>
+    match NMap.get w.store n with
+    | some _ => (w.tick, .ok .torn)
+    | none => (w.tick, .err true)
   | .fail | .failPartial => (w.tick, .err false)
   | .crash | .crashPartial => ({ w.tick with dead := true }, .err false)
 
@@ -169,7 +175,7 @@ def get (F : Oracle) (w : World) (n : Nat) : World × Res Obj :=
 def rename (F : Oracle) (w : World) (src dst : Nat) : World × Res Unit :=
   if w.dead then (w, .err false) else
   match F w.calls with
-  | .ok =>
+  | .ok | .readCorrupt =>
     match NMap.get w.store src with
     | some o => ({ w.tick with store := NMap.insert dst o (NMap.erase src w.store) }, .ok ())
     | none => (w.tick, .err true)
@@ -180,7 +186,7 @@ def rename (F : Oracle) (w : World) (src dst : Nat) : World × Res Unit :=
 def delete (F : Oracle) (w : World) (n : Nat) : World × Res Unit :=
   if w.dead then (w, .err false) else
   match F w.calls with
-  | .ok => ({ w.tick with store := NMap.erase n w.store }, .ok ())
+  | .ok | .readCorrupt => ({ w.tick with store := NMap.erase n w.store }, .ok ())
   | .fail | .failPartial => (w.tick, .err false)
   | .crash | .crashPartial => ({ w.tick with dead := true }, .err false)
 
@@ -188,7 +194,7 @@ def delete (F : Oracle) (w : World) (n : Nat) : World × Res Unit :=
 def list (F : Oracle) (w : World) : World × Res (List Nat) :=
   if w.dead then (w, .err false) else
   match F w.calls with
-  | .ok => (w.tick, .ok w.store.keys)
+  | .ok | .readCorrupt => (w.tick, .ok w.store.keys)
   | .fail | .failPartial => (w.tick, .err false)
   | .crash | .crashPartial => ({ w.tick with dead := true }, .err false)
 
